@@ -1,8 +1,9 @@
 """Models of std combinators for the fragment canonicaliser (sym.py). Trusted base: each model
 states what the std function returns on opaque terms; nothing here evaluates repository code."""
 import re
+import facts as F
 from sym import (VAL, RET, NONE, TRUE, FALSE, UNIT, some, ok, err, mk_payload, mk_field, lit_int, lin_norm,
-                 Undecidable, short_path, simplify_atom)
+                 Undecidable, short_path, simplify_atom, St)
 
 IDENTITY = (
     "std::clone::Clone::clone", "std::ops::Deref::deref", "std::ops::DerefMut::deref_mut", "std::convert::AsRef::as_ref",
@@ -350,6 +351,79 @@ def apply_model(sym, n, f, vals, mut_idx, st):
                 else:
                     out.append((s2, (VAL, NONE)))
             return out
+
+    # ---- `it.map(|x| <closure with effects on captured places>).collect()` is a loop: `for x in it { v.push(f(x)) }` ------------
+    if p == "std::iter::Iterator::collect" and len(vals) == 1 and vals[0][0] == "call" and vals[0][1] == "std::iter::Iterator::map" \
+            and len(vals[0][2]) == 2 and vals[0][2][1][0] == "closure" and sym.inline_mut and "Vec<" in (n.get("ty") or ""):
+        it, clo = vals[0][2]
+        key = ("collect-map", clo[1])
+        idx = sym.loops[key]["index"] if key in sym.loops else sym._reserved.get(key)
+        if idx is None:
+            idx = sym._next_loop
+            sym._next_loop += 1
+            sym._reserved[key] = idx
+        nxt = ("mcall", "std::iter::Iterator::next", (("place", "<mapped>", ()),), 990 + idx)
+        elem = mk_payload(nxt, "Some", "0")
+        vname = "<collected#%d>" % idx
+        # first pass: which captured places does one application mutate?
+        try:
+            probe = sym.apply(clo, [elem], St(dict(st.env), dict(st.store), st.conds, (), st.n), n)
+        except Exception:
+            probe = None
+        muts = set()
+        if probe:
+            for s1, o1 in probe:
+                for e in s1.effects:
+                    if e[0] in ("call", "assign", "opassign"):
+                        tgt = e[2][0] if e[0] == "call" and e[2] else (e[1] if e[0] == "assign" else e[2])
+                        if isinstance(tgt, tuple) and tgt[:1] == ("place",):
+                            muts.add(tgt[1])
+        # loop-carried roots: the variables the closure captures by mutable borrow
+        root_vids = {}
+        cb_ = sym.fx.bodies.get(clo[1])
+        pb_ = sym.fx.bodies.get(cb_.get("parent")) if cb_ else None
+        if pb_ is None and cb_ is not None:
+            pb_ = sym.fx.bodies.get(clo[1].rsplit("::{closure", 1)[0])
+        for x in (F.walk(pb_["body"]) if pb_ else ()):
+            if x.get("k") == "Closure" and x.get("def") == clo[1]:
+                for u in x.get("upvars", []):
+                    if u.get("k") == "Borrow" and u.get("mut"):
+                        v_ = F.strip(u["e"])
+                        if v_.get("k") in ("Var", "Upvar"):
+                            root_vids[v_["id"]] = v_["name"]
+        if probe and (muts or root_vids):
+            entry = St(dict(st.env), dict(st.store), st.conds, (), st.n)
+            for vid, nm in root_vids.items():
+                entry.env[vid] = ("loop", nm, idx)
+                for sk in [sk for sk in entry.store if sk[0] == vid]:
+                    del entry.store[sk]
+            some_entry = entry.copy()
+            some_entry.conds = entry.conds + ((("is", nxt, "Some"), True),)
+            try:
+                body_paths = sym.apply(clo, [elem], some_entry, n)
+            except Exception:
+                body_paths = None
+            if body_paths:
+                paths = []
+                for s2, (k2, v2) in body_paths:
+                    s3 = s2.copy()
+                    s3.n += 1
+                    s3.effects = s2.effects + (("call", "std::vec::Vec::push", (("place", vname, ()), v2), s3.n),)
+                    paths.append((s3, ("cont", None)))
+                end = entry.copy()
+                end.conds = entry.conds + ((("is", nxt, "Some"), False),)
+                paths.append((end, ("brk", None)))
+                if key not in sym.loops:
+                    sym.loop_order.append(key)
+                    sym.loops[key] = dict(node=dict(k="Loop", sp=n.get("sp", "?"), body=dict(k="Block", stmts=[], tail=None, sp=n.get("sp", "?"))),
+                                          entry=entry, paths=paths, index=idx, pre=st, driver=it, synthetic="collect(map)")
+                after = st.copy()
+                for vid, nm in root_vids.items():
+                    after.env[vid] = ("loop", nm, idx)
+                    for sk in [sk for sk in after.store if sk[0] == vid]:
+                        del after.store[sk]
+                after.effects = st.effects + (("loopsum", idx),)
+                return [(after, (VAL, ("loop", vname, idx)))]
 
     # ---- iterators (pure lookahead) -----------------------------------------------------------------------------------
     if p == "std::iter::Peekable::peek":
